@@ -1702,4 +1702,278 @@ theorem route_proxy (idna : Str → Option Str) (m : Mgr) (u : Url.Url) (c : Lis
       split <;> exact this
 
 
+
+/-- characters of a plain host name: letters, digits, `-`, `.`, `_`, `~` -/
+def hostPlainC (c : Nat) : Bool := isAlphaC c || isDigitC c || c == 45 || c == 46 || c == 95 || c == 126
+
+theorem hostPlainC_facts {c : Nat} (h : hostPlainC c = true) :
+    c ≠ 37 ∧ c ≠ 64 ∧ c ≠ 91 ∧ c ≠ 10 ∧ c < 128 ∧ Url.authChar c = true ∧ Url.regNameChar c = true := by
+  simp only [hostPlainC, isAlphaC, isUpperC, isLowerC, isDigitC, Bool.or_eq_true, Bool.and_eq_true,
+    decide_eq_true_eq, beq_iff_eq] at h
+  refine ⟨by omega, by omega, by omega, by omega, by omega, ?_, ?_⟩
+  · have : c ≠ 92 ∧ c ≠ 47 ∧ c ≠ 63 ∧ c ≠ 35 := by omega
+    simp [Url.authChar, this]
+  · have : c ≠ 91 ∧ c ≠ 93 ∧ c ≠ 37 ∧ c ≠ 58 ∧ c ≠ 47 ∧ c ≠ 63 ∧ c ≠ 35 := by omega
+    simp [Url.regNameChar, this]
+
+theorem tokenize_plain (H A : Str) (h37 : ∀ c ∈ H, c ≠ 37) :
+    Url.tokenize (H ++ A) = H.map .chr ++ Url.tokenize A := by
+  induction H with
+  | nil => rfl
+  | cons c t ih =>
+    have hc := h37 c (List.mem_cons_self ..)
+    have := ih (fun x hx => h37 x (List.mem_cons_of_mem _ hx))
+    simp only [Url.tokenize] at this ⊢
+    simp only [List.cons_append, Url.tokAux, hc, if_false, List.map_cons, this]
+
+theorem takeWhile_append_stop' {α : Type} {p : α → Bool} (r : List α) (y : α) (b : List α)
+    (hr : ∀ x ∈ r, p x = true) (hy : p y = false) :
+    (r ++ y :: b).takeWhile p = r ∧ (r ++ y :: b).dropWhile p = y :: b := by
+  induction r with
+  | nil => simp [hy]
+  | cons x t ih =>
+    have hx := hr x (List.mem_cons_self ..)
+    have := ih (fun z hz => hr z (List.mem_cons_of_mem _ hz))
+    simp [hx, this]
+
+theorem takeWhile_all' {α : Type} {p : α → Bool} (r : List α) (hr : ∀ x ∈ r, p x = true) :
+    r.takeWhile p = r ∧ r.dropWhile p = [] := by
+  induction r with
+  | nil => simp
+  | cons x t ih =>
+    have hx := hr x (List.mem_cons_self ..)
+    have := ih (fun z hz => hr z (List.mem_cons_of_mem _ hz))
+    simp [hx, this]
+
+theorem flatMap_text_chr (H : Str) : (H.map Url.Tok.chr).flatMap Url.Tok.text = H := by
+  induction H with
+  | nil => rfl
+  | cons c t ih => simp [Url.Tok.text, ih]
+
+/-- `_HOST_PORT_RE` on a plain, non-empty host followed by nothing or `:`… -/
+theorem hostPortRe_plain (H A : Str) (hH : ∀ c ∈ H, hostPlainC c = true) (hne : H ≠ [])
+    (hA : A = [] ∨ ∃ t, A = 58 :: t) :
+    Url.hostPortRe (H ++ A) = (Url.portPart A).map (fun p => (H, p)) := by
+  have h37 : ∀ c ∈ H, c ≠ 37 := fun c hc => (hostPlainC_facts (hH c hc)).1
+  have hreg : ∀ t ∈ H.map Url.Tok.chr, Url.regNameTok t = true := by
+    intro t ht
+    simp only [List.mem_map] at ht
+    obtain ⟨c, hc, rfl⟩ := ht
+    exact (hostPlainC_facts (hH c hc)).2.2.2.2.2.2
+  have hsplit : ((Url.tokenize (H ++ A)).takeWhile Url.regNameTok).flatMap Url.Tok.text = H ∧
+      ((Url.tokenize (H ++ A)).dropWhile Url.regNameTok).flatMap Url.Tok.text = A := by
+    rw [tokenize_plain H A h37]
+    rcases hA with rfl | ⟨t, rfl⟩
+    · have : Url.tokenize [] = [] := rfl
+      rw [this, List.append_nil, (takeWhile_all' _ hreg).1, (takeWhile_all' _ hreg).2]
+      exact ⟨flatMap_text_chr H, rfl⟩
+    · have ht : Url.tokenize (58 :: t) = .chr 58 :: Url.tokAux 0 t := by
+        simp [Url.tokenize, Url.tokAux]
+      have h58 : Url.regNameTok (.chr 58) = false := by decide
+      rw [ht, (takeWhile_append_stop' _ _ _ hreg h58).1, (takeWhile_append_stop' _ _ _ hreg h58).2]
+      refine ⟨flatMap_text_chr H, ?_⟩
+      rw [← ht]
+      exact Url.render_tokenize (58 :: t)
+  have hb : Url.hostPortBracket (H ++ A) = none := by
+    apply Url.hostPortBracket_nb
+    intro t e
+    cases H with
+    | nil => exact hne rfl
+    | cons c r =>
+      simp only [List.cons_append, List.cons.injEq] at e
+      exact (hostPlainC_facts (hH c (List.mem_cons_self ..))).2.2.1 e.1
+  unfold Url.hostPortRe
+  simp only [hsplit.1, hsplit.2, hb]
+  cases Url.portPart A <;> rfl
+
+
+theorem rpart_none_of_not_mem (c : Nat) (s : Str) (h : c ∉ s) : Url.rpart c s = none := by
+  induction s with
+  | nil => rfl
+  | cons x t ih =>
+    have hx : x ≠ c := fun e => h (e ▸ List.mem_cons_self ..)
+    have ht := ih (fun hm => h (List.mem_cons_of_mem _ hm))
+    simp [Url.rpart, ht, hx]
+
+theorem rpart_append (c : Nat) (a X : Str) (h : c ∉ X) : Url.rpart c (a ++ c :: X) = some (a, X) := by
+  induction a with
+  | nil => simp [Url.rpart, rpart_none_of_not_mem c X h]
+  | cons x t ih => simp [Url.rpart, ih]
+
+/-- the userinfo part of an authority text: nothing, or something ending in `@` -/
+inductive UiPrefix : Str → Str → Prop
+  | none : UiPrefix [] []
+  | some (ui : Str) : UiPrefix (ui ++ [64]) ui
+
+theorem rpartitionAt_prefix {P au X : Str} (hP : UiPrefix P au) (hX : 64 ∉ X) :
+    Url.rpartitionAt (P ++ X) = (au, X) := by
+  cases hP with
+  | none => simp [Url.rpartitionAt, rpart_none_of_not_mem 64 X hX]
+  | some =>
+    have : au ++ [64] ++ X = au ++ 64 :: X := by simp
+    rw [this]
+    simp [Url.rpartitionAt, rpart_append 64 au X hX]
+
+/-- `_normalize_host` of a non-empty ASCII name that is neither a bracketed literal nor a dotted quad:
+the name in lower case -/
+theorem normalizeHost_regname (idna : Str → Option Str) (h s : Str) (hsch : s = http ∨ s = https)
+    (hne : h ≠ []) (ha : h.all (· < 128) = true) (h6 : Url.ipv6AddrzMatch h = false)
+    (h4 : Url.ipv4Match h = false) :
+    Url.normalizeHost idna (some h) (some s) = .ok (some (lower h)) := by
+  have hn : Gen.normalizableSchemes.contains (some s) = true := by
+    rcases hsch with rfl | rfl <;> decide
+  have hie : h.isEmpty = false := by simpa using hne
+  unfold Url.normalizeHost
+  simp only [hn, if_true, hie, Bool.false_eq_true, if_false, h6, h4]
+  have hlab : ∀ x ∈ splitOn1 46 h, x.all (· < 128) = true := by
+    intro x hx
+    simp only [List.all_eq_true, decide_eq_true_eq] at ha ⊢
+    exact fun y hy => ha y (mem_splitOn1_sub hx y hy)
+  simp only [bind, Except.bind, mapM_idna_ascii idna _ hlab]
+  have : joinWith [46] ((splitOn1 46 h).map lower) = lower (joinWith [46] (splitOn1 46 h)) := by
+    rw [Url.lower_joinWith]; rfl
+  rw [this, join_split]
+
+theorem plain_not_ipv6 {H : Str} (hH : ∀ c ∈ H, hostPlainC c = true) : Url.ipv6AddrzMatch H = false := by
+  unfold Url.ipv6AddrzMatch
+  have hnl : H.getLast? ≠ some 10 := by
+    intro e
+    have hm : (10 : Nat) ∈ H := List.mem_of_getLast? e
+    exact (hostPlainC_facts (hH 10 hm)).2.2.2.1 rfl
+  rw [Url.stripNl_of_not_nl H hnl]
+  cases H with
+  | nil => rfl
+  | cons c t =>
+    have := (hostPlainC_facts (hH c (List.mem_cons_self ..))).2.2.1
+    split
+    · rename_i t' e
+      simp only [List.cons.injEq] at e
+      exact absurd e.1 this
+    · rfl
+
+theorem normalizeHost_plain (idna : Str → Option Str) (H s : Str) (hsch : s = http ∨ s = https)
+    (hH : ∀ c ∈ H, hostPlainC c = true) (hne : H ≠ []) (h4 : Url.ipv4Match H = false) :
+    Url.normalizeHost idna (some H) (some s) = .ok (some (lower H)) := by
+  apply normalizeHost_regname idna H s hsch hne _ (plain_not_ipv6 hH) h4
+  simp only [List.all_eq_true, decide_eq_true_eq]
+  exact fun c hc => (hostPlainC_facts (hH c hc)).2.2.2.2.1
+
+
+theorem parseAuthority_plain (n : Bool) {P au H A : Str} (hP : UiPrefix P au)
+    (hH : ∀ c ∈ H, hostPlainC c = true) (hne : H ≠ []) (hA : A = [] ∨ ∃ t, A = 58 :: t) (h64 : 64 ∉ A) :
+    Url.parseAuthority n (some (P ++ (H ++ A))) =
+      match Url.portPart A with
+      | none => .error .attributeError
+      | some p => .ok (if au.isEmpty then none
+                       else some (if n then Url.encodeInvalidChars Gen.userinfoChars au else au),
+                       some H,
+                       match p with
+                       | some d => if d.isEmpty then none else some d
+                       | none => none) := by
+  have hX : 64 ∉ H ++ A := by
+    intro hm
+    rcases List.mem_append.mp hm with hm | hm
+    · exact (hostPlainC_facts (hH 64 hm)).2.1 rfl
+    · exact h64 hm
+  have hie : (P ++ (H ++ A)).isEmpty = false := by
+    cases P <;> cases H <;> simp_all
+  unfold Url.parseAuthority
+  simp only [hie, Bool.false_eq_true, if_false, rpartitionAt_prefix hP hX, hostPortRe_plain H A hH hne hA]
+  cases Url.portPart A <;> rfl
+
+theorem takeWhile_append_all {p : Nat → Bool} (L rest : Str) (hL : ∀ x ∈ L, p x = true) :
+    (L ++ rest).takeWhile p = L ++ rest.takeWhile p ∧ (L ++ rest).dropWhile p = rest.dropWhile p := by
+  induction L with
+  | nil => simp
+  | cons x t ih =>
+    have hx := hL x (List.mem_cons_self ..)
+    have := ih (fun z hz => hL z (List.mem_cons_of_mem _ hz))
+    simp [hx, this]
+
+/-- the URL text `scheme://[userinfo@]HOST rest` -/
+def urlText (sc P H rest : Str) : Str := sc ++ 58 :: 47 :: 47 :: (P ++ (H ++ rest))
+
+theorem parseCore_host_case (idna : Str → Option Str) (sc P au H₁ H₂ rest : Str) (hsc : SchemeText sc)
+    (hs : lower sc = http ∨ lower sc = https) (hP : UiPrefix P au) (hPa : ∀ c ∈ P, Url.authChar c = true)
+    (hH₁ : ∀ c ∈ H₁, hostPlainC c = true) (hH₂ : ∀ c ∈ H₂, hostPlainC c = true)
+    (hne₁ : H₁ ≠ []) (hne₂ : H₂ ≠ [])
+    (hl : lower H₁ = lower H₂) (h4₁ : Url.ipv4Match H₁ = false) (h4₂ : Url.ipv4Match H₂ = false)
+    (hrest : rest = [] ∨ ∃ c t, rest = c :: t ∧ (c = 58 ∨ Url.authChar c = false))
+    (h64 : 64 ∉ rest.takeWhile Url.authChar) :
+    Url.parseCore idna (urlText sc P H₁ rest) = Url.parseCore idna (urlText sc P H₂ rest) := by
+  have hA : rest.takeWhile Url.authChar = [] ∨ ∃ t, rest.takeWhile Url.authChar = 58 :: t := by
+    rcases hrest with rfl | ⟨c, t, rfl, hc | hc⟩
+    · exact Or.inl rfl
+    · subst hc
+      have : Url.authChar 58 = true := by decide
+      exact Or.inr ⟨_, by rw [List.takeWhile_cons_of_pos this]⟩
+    · exact Or.inl (by rw [List.takeWhile_cons_of_neg (by simpa using hc)])
+  have front : ∀ H, (∀ c ∈ H, hostPlainC c = true) →
+      Url.schemeRe (urlText sc P H rest) = true ∧
+      Url.splitScheme (urlText sc P H rest) = (some sc, 47 :: 47 :: (P ++ (H ++ rest))) ∧
+      Url.splitAuthority (47 :: 47 :: (P ++ (H ++ rest))) =
+        (some (P ++ (H ++ rest.takeWhile Url.authChar)), rest.dropWhile Url.authChar) := by
+    intro H hH
+    obtain ⟨c, t, rfl, hc, ht⟩ := hsc
+    have h58 : Url.schemeChar1 58 = false := by decide
+    have h58' : Url.schemeChar 58 = false := by decide
+    have hne : c ≠ 47 := Url.alpha_ne47 hc
+    have ht' : ∀ x ∈ t, Url.schemeChar x = true := fun x hx => schemeChar1_schemeChar (ht x hx)
+    refine ⟨?_, ?_, ?_⟩
+    · simp only [urlText, List.cons_append, Url.schemeRe, hne, if_false, hc, if_true]
+      rw [(Url.takeWhile_append_stop t 58 (47 :: 47 :: (P ++ (H ++ rest))) ht h58).2]
+      rfl
+    · simp only [urlText, List.cons_append, Url.splitScheme, hc, if_true]
+      rw [(Url.takeWhile_append_stop t 58 (47 :: 47 :: (P ++ (H ++ rest))) ht' h58').2,
+        (Url.takeWhile_append_stop t 58 (47 :: 47 :: (P ++ (H ++ rest))) ht' h58').1]
+      rfl
+    · have hPH : ∀ x ∈ P ++ H, Url.authChar x = true := by
+        intro x hx
+        rcases List.mem_append.mp hx with hx | hx
+        · exact hPa x hx
+        · exact (hostPlainC_facts (hH x hx)).2.2.2.2.2.1
+      have := takeWhile_append_all (p := Url.authChar) (P ++ H) rest hPH
+      simp only [List.append_assoc] at this
+      simp only [Url.splitAuthority, this.1, this.2]
+  obtain ⟨f1, f2, f3⟩ := front H₁ hH₁
+  obtain ⟨g1, g2, g3⟩ := front H₂ hH₂
+  have hN : Url.normalizeHost idna (some H₁) (some (lower sc)) = Url.normalizeHost idna (some H₂) (some (lower sc)) := by
+    rw [normalizeHost_plain idna H₁ _ hs hH₁ hne₁ h4₁, normalizeHost_plain idna H₂ _ hs hH₂ hne₂ h4₂, hl]
+  unfold Url.parseCore
+  simp only [f1, f2, f3, g1, g2, g3, if_true, Option.map_some,
+    parseAuthority_plain _ hP hH₁ hne₁ hA h64, parseAuthority_plain _ hP hH₂ hne₂ hA h64]
+  cases Url.portPart (rest.takeWhile Url.authChar) with
+  | none => rfl
+  | some p =>
+    simp only [bind, Except.bind]
+    split <;> simp only [hN]
+
+
+/-- **The host's letter case does not influence the parse** (plain reg-names, http/https) -/
+theorem parseUrlWith_host_case (idna : Str → Option Str) (sc P au H₁ H₂ rest : Str) (hsc : SchemeText sc)
+    (hs : lower sc = http ∨ lower sc = https) (hP : UiPrefix P au) (hPa : ∀ c ∈ P, Url.authChar c = true)
+    (hH₁ : ∀ c ∈ H₁, hostPlainC c = true) (hH₂ : ∀ c ∈ H₂, hostPlainC c = true)
+    (hl : lower H₁ = lower H₂) (h4₁ : Url.ipv4Match H₁ = false) (h4₂ : Url.ipv4Match H₂ = false)
+    (hrest : rest = [] ∨ ∃ c t, rest = c :: t ∧ (c = 58 ∨ Url.authChar c = false))
+    (h64 : 64 ∉ rest.takeWhile Url.authChar) :
+    Url.parseUrlWith idna (urlText sc P H₁ rest) = Url.parseUrlWith idna (urlText sc P H₂ rest) := by
+  by_cases hne₁ : H₁ = []
+  · have : H₂ = [] := by
+      have := congrArg List.length hl
+      simp only [lower_length, hne₁, List.length_nil] at this
+      exact List.eq_nil_of_length_eq_zero this.symm
+    rw [hne₁, this]
+  · have hne₂ : H₂ ≠ [] := by
+      intro e
+      have := congrArg List.length hl
+      simp only [lower_length, e, List.length_nil] at this
+      exact hne₁ (List.eq_nil_of_length_eq_zero this)
+    have e1 : ∀ H, (urlText sc P H rest).isEmpty = false := by
+      intro H
+      obtain ⟨c, t, rfl, -, -⟩ := hsc
+      rfl
+    unfold Url.parseUrlWith
+    rw [e1, e1, parseCore_host_case idna sc P au H₁ H₂ rest hsc hs hP hPa hH₁ hH₂ hne₁ hne₂ hl h4₁ h4₂ hrest h64]
+
+
 end U3.Route
